@@ -758,6 +758,8 @@ example : MW.LedBytes.Ex.trB0.WF MW.LedBytes.Ex.E1 ∧ MW.LedBytes.Ex.trB0.Abs M
   ⟨MW.LedBytes.Ex.trB0_wf, MW.LedBytes.Ex.trB0_abs⟩
 example : ∃ sb', addRelevantMinedB {} (fun bs => bs) MW.LedBytes.Ex.trB0 ⟨5, MW.LedBytes.Ex.h32 9⟩ 77 ({}, []) = .ok sb' ∧
     sb'.1.c.length = 1 ∧ sb'.1.u.length = 1 ∧ sb'.1.b.length = 1 ∧ sb'.1.t.length = 1 := MW.LedBytes.Ex.step0_ok
+example : RollbackOut MW.LedBytes.Ex.R0 {} 1 ∧ BlockRoom (absStore MW.LedBytes.Ex.E0 {}) 5 :=
+  ⟨MW.LedBytes.Ex.rollbackOut_empty, MW.LedBytes.Ex.blockRoom_empty _ 5⟩
 example : (⟨List.replicate 32 1, 5, [List.replicate 32 2, List.replicate 32 3]⟩ : Model.TxmgrCodec.BlockRecB).WF :=
   ⟨by decide, by decide, by decide, by decide, by decide⟩
 end LedBytes
